@@ -120,6 +120,7 @@ def grouped(api: str, data: bytes):
     var: contextvars.ContextVar = contextvars.ContextVar("frame_metadata")
     out = []
     made: list = []  # sinks handed out by the caller-supplied factory
+    at_creation: list = []  # frame metadata visible when the factory is called for a frame
 
     def body():
         if api == "generic":
@@ -130,6 +131,7 @@ def grouped(api: str, data: bytes):
                 pass
 
             def factory():
+                at_creation.append(dict(var.get({})))
                 made.append(MySink())
                 return made[-1]
 
@@ -150,10 +152,12 @@ def grouped(api: str, data: bytes):
                 pass
 
             def gf():
+                at_creation.append(dict(var.get({})))
                 made.append(MyGraph())
                 return made[-1]
 
             def df():
+                at_creation.append(dict(var.get({})))
                 made.append(MyDataset())
                 return made[-1]
 
@@ -165,6 +169,10 @@ def grouped(api: str, data: bytes):
                 out.append((DR._graph_events(g), meta))
         if len(made) != len(out):
             out.append(([], {"!factory": f"{len(made)} factory calls for {len(out)} sinks".encode()}))
+        else:
+            for k, (m0, (_, m1)) in enumerate(zip(at_creation, out)):
+                if m0 != {kk: v for kk, v in m1.items() if kk != "!factory"}:
+                    out[k] = (out[k][0], {**m1, "!early": repr(m0).encode()})
 
     contextvars.copy_context().run(body)
     return out
@@ -201,6 +209,11 @@ def check_partition(base, mask: int, variant: str) -> list[tuple[str, str]]:
             if not same:
                 fails.append((f"grouped-{api}", f"sink {k} holds {evs}, frame {k} carries {want} "
                                                 f"(partition {mask:b}/{variant})"))
+                break
+            if "!early" in meta:
+                fails.append((f"metadata-{api}", f"when the sink for frame {k} is created (start of "
+                                                 f"its consumption) the visible frame metadata is "
+                                                 f"{meta['!early']!r}, the frame has {wmeta}"))
                 break
             if meta != wmeta:
                 fails.append((f"metadata-{api}", f"while sink {k} is current the visible frame "
@@ -266,6 +279,10 @@ def check_write(case: dict) -> list[tuple[str, str]]:
             flow = flows.GraphsFrameFlow() if arity == 3 else flows.DatasetsFrameFlow()
             opts = DR.make_options(cls, (4000, 150, 32), 250, True, 0, generalized=False,
                                    rdf_star=False, flow=flow)
+        elif how.startswith("subtype"):
+            sub = int(how.split("-")[1])
+            opts = DR.make_options(cls, (4000, 150, 32), 250, True, sub, generalized=False,
+                                   rdf_star=False)
         else:
             opts = DR.make_options(cls, (4000, 150, 32), 250, True, lt, generalized=False,
                                    rdf_star=False)
@@ -334,7 +351,8 @@ def write_shard(job) -> dict:
         for kind, msg in fails:
             acc.violation({"side": "write", "fail": kind, "api": api}, f"{msg} case={case}", case)
     if lo == 0:
-        for how in ("explicit-flow", "logical-type"):
+        subs = ("subtype-13",) if arity == 3 else ("subtype-14", "subtype-114")
+        for how in ("explicit-flow", "logical-type", *subs):
             case = {"side": "write", "api": api, "arity": arity, "groups": [], "big": how}
             acc.evals += 1
             acc.nontrivial += 1
